@@ -1,5 +1,10 @@
 // zsim worker: stays pristine (initialises the two static vocabularies, then
 // never compiles or runs a query itself) and forks one child per plan.
+//
+// The worker does not touch the heap after start-up: the plan text is read
+// into a static buffer and parsed by the child.  Every child therefore starts
+// from the very same heap image, which makes address reuse in the
+// non-sanitized build a function of the plan alone.
 
 #include "zsim.hh"
 
@@ -28,102 +33,168 @@ init_vocabularies ()
     }
 }
 
-static int
-serve_one (plan const &p)
+namespace
 {
-  int fds[2];
-  if (pipe (fds) != 0)
-    {
-      perror ("pipe");
-      return 2;
-    }
-  fflush (stdout);
-  g_child_errfd = memfd_create ("zsim-child-stderr", 0);
-  pid_t pid = fork ();
-  if (pid < 0)
-    {
-      perror ("fork");
-      return 2;
-    }
-  if (pid == 0)
-    {
-      close (fds[0]);
-      if (p.knob ("cli", 0))
-	child_cli (p, fds[1]);
-      else
-	child_run_plan (p, fds[1]);
-    }
-  close (fds[1]);
+  constexpr size_t PLAN_MAX = 8u << 20;
+  char g_plan_text[PLAN_MAX];
+  size_t g_plan_len;
+  char g_plan_id[64];
+  char g_relay[65536];
+  char g_report_path[512];
 
-  char buf[65536];
-  while (true)
-    {
-      ssize_t n = read (fds[0], buf, sizeof buf);
-      if (n < 0 && errno == EINTR)
-	continue;
-      if (n <= 0)
-	break;
-      fwrite (buf, 1, n, stdout);
-    }
-  close (fds[0]);
+  // Reads one plan (up to and including the "end" line) into g_plan_text.
+  // Returns 1 on success, 0 on clean EOF, -1 on error.
+  int
+  slurp_plan ()
+  {
+    g_plan_len = 0;
+    g_plan_id[0] = 0;
+    bool any = false;
+    while (true)
+      {
+	if (g_plan_len + 2 >= PLAN_MAX)
+	  return -1;
+	char *line = g_plan_text + g_plan_len;
+	if (fgets (line, (int) (PLAN_MAX - g_plan_len), stdin) == nullptr)
+	  return any ? -1 : 0;
+	size_t n = strlen (line);
+	if (n == 0)
+	  continue;
+	g_plan_len += n;
+	if (strncmp (line, "plan ", 5) == 0)
+	  {
+	    size_t k = 0;
+	    for (char const *p = line + 5; *p && *p != '\n' && *p != ' ' && k + 1 < sizeof g_plan_id; ++p)
+	      g_plan_id[k++] = *p;
+	    g_plan_id[k] = 0;
+	  }
+	if (line[0] != '\n')
+	  any = true;
+	if (strcmp (line, "end\n") == 0 || strcmp (line, "end") == 0)
+	  return 1;
+      }
+  }
 
-  int st = 0;
-  while (waitpid (pid, &st, 0) < 0 && errno == EINTR)
-    ;
+  void
+  put_hex_file (char const *tag, int fd, off_t from, off_t to)
+  {
+    static char const *d = "0123456789abcdef";
+    fputs (tag, stdout);
+    while (from < to)
+      {
+	ssize_t n = pread (fd, g_relay, sizeof g_relay < (size_t) (to - from) ? sizeof g_relay : (size_t) (to - from), from);
+	if (n <= 0)
+	  break;
+	for (ssize_t i = 0; i < n; ++i)
+	  {
+	    unsigned char c = g_relay[i];
+	    putc (d[c >> 4], stdout);
+	    putc (d[c & 15], stdout);
+	  }
+	from += n;
+      }
+    putc ('\n', stdout);
+  }
 
-  // A child that died in the middle of a line must not corrupt the framing.
-  fputs ("\n", stdout);
+  void
+  relay_report (char const *rp, char const *infix, pid_t pid)
+  {
+    snprintf (g_report_path, sizeof g_report_path, "%s%s%d", rp, infix, (int) pid);
+    int fd = open (g_report_path, O_RDONLY);
+    if (fd < 0)
+      return;
+    off_t sz = lseek (fd, 0, SEEK_END);
+    if (sz > (1 << 20))
+      sz = 1 << 20;
+    if (sz > 0)
+      put_hex_file ("=log ", fd, 0, sz);
+    close (fd);
+    unlink (g_report_path);
+  }
 
-  // What an abnormally ended child wrote to its stderr last (UBSan reports,
-  // assertion messages, terminate() messages).
-  if (g_child_errfd >= 0)
-    {
-      if (! (WIFEXITED (st) && WEXITSTATUS (st) == 0))
-	{
-	  off_t sz = lseek (g_child_errfd, 0, SEEK_END);
-	  off_t from = sz > 6000 ? sz - 6000 : 0;
-	  std::string tail;
-	  while (from < sz)
-	    {
-	      ssize_t n = pread (g_child_errfd, buf, sizeof buf, from);
-	      if (n <= 0)
-		break;
-	      tail.append (buf, n);
-	      from += n;
-	    }
-	  if (! tail.empty ())
-	    printf ("=stderr %s\n", hexenc (tail).c_str ());
-	}
-      close (g_child_errfd);
-      g_child_errfd = -1;
-    }
+  int
+  serve_one ()
+  {
+    int fds[2];
+    if (pipe (fds) != 0)
+      {
+	perror ("pipe");
+	return 2;
+      }
+    fflush (stdout);
+    g_child_errfd = memfd_create ("zsim-child-stderr", 0);
+    pid_t pid = fork ();
+    if (pid < 0)
+      {
+	perror ("fork");
+	return 2;
+      }
+    if (pid == 0)
+      {
+	close (fds[0]);
+	FILE *mem = fmemopen (g_plan_text, g_plan_len, "r");
+	plan p;
+	std::string err;
+	if (mem == nullptr || ! plan_read (mem, p, err))
+	  {
+	    std::string line = "viol setup " + hexenc ("bad plan: " + err) + "\n";
+	    ssize_t r = write (fds[1], line.data (), line.size ());
+	    (void) r;
+	    _exit (3);
+	  }
+	fclose (mem);
+	if (p.knob ("cli", 0))
+	  child_cli (p, fds[1]);
+	else
+	  child_run_plan (p, fds[1]);
+      }
+    close (fds[1]);
 
-  if (char const *rp = getenv ("ZSIM_REPORT_PATH"))
-    {
-      // ASan/LSan write to <rp>.<pid>; the UBSan runtime is a separate DSO
-      // with its own report file, <rp>.ub.<pid> (set through UBSAN_OPTIONS).
-      std::string log;
-      for (char const *infix: {".", ".ub."})
-	{
-	  std::string path = std::string (rp) + infix + std::to_string (pid);
-	  if (FILE *f = fopen (path.c_str (), "r"))
-	    {
-	      size_t n;
-	      while ((n = fread (buf, 1, sizeof buf, f)) > 0 && log.size () < (1 << 20))
-		log.append (buf, n);
-	      fclose (f);
-	      unlink (path.c_str ());
-	    }
-	}
-      if (! log.empty ())
-	printf ("=log %s\n", hexenc (log).c_str ());
-    }
+    while (true)
+      {
+	ssize_t n = read (fds[0], g_relay, sizeof g_relay);
+	if (n < 0 && errno == EINTR)
+	  continue;
+	if (n <= 0)
+	  break;
+	fwrite (g_relay, 1, n, stdout);
+      }
+    close (fds[0]);
 
-  printf ("=done %s exit=%d sig=%d\n", p.id.c_str (),
-	  WIFEXITED (st) ? WEXITSTATUS (st) : -1,
-	  WIFSIGNALED (st) ? WTERMSIG (st) : 0);
-  fflush (stdout);
-  return 0;
+    int st = 0;
+    while (waitpid (pid, &st, 0) < 0 && errno == EINTR)
+      ;
+
+    // A child that died in the middle of a line must not corrupt the framing.
+    fputs ("\n", stdout);
+
+    // What an abnormally ended child wrote to its stderr last (UBSan reports,
+    // assertion messages, terminate() messages).
+    if (g_child_errfd >= 0)
+      {
+	if (! (WIFEXITED (st) && WEXITSTATUS (st) == 0))
+	  {
+	    off_t sz = lseek (g_child_errfd, 0, SEEK_END);
+	    off_t from = sz > 6000 ? sz - 6000 : 0;
+	    if (sz > from)
+	      put_hex_file ("=stderr ", g_child_errfd, from, sz);
+	  }
+	close (g_child_errfd);
+	g_child_errfd = -1;
+      }
+
+    if (char const *rp = getenv ("ZSIM_REPORT_PATH"))
+      {
+	relay_report (rp, ".", pid);
+	relay_report (rp, ".ub.", pid);
+      }
+
+    printf ("=done %s exit=%d sig=%d\n", g_plan_id,
+	    WIFEXITED (st) ? WEXITSTATUS (st) : -1,
+	    WIFSIGNALED (st) ? WTERMSIG (st) : 0);
+    fflush (stdout);
+    return 0;
+  }
 }
 
 int
@@ -144,19 +215,16 @@ main (int argc, char **argv)
 
   while (true)
     {
-      plan p;
-      std::string err;
-      if (! plan_read (stdin, p, err))
+      int r = slurp_plan ();
+      if (r == 0)
+	return 0;
+      if (r < 0)
 	{
-	  if (! err.empty ())
-	    {
-	      printf ("=error %s\n", hexenc (err).c_str ());
-	      fflush (stdout);
-	      return 2;
-	    }
-	  return 0;
+	  printf ("=error %s\n", hexenc ("bad or oversized plan").c_str ());
+	  fflush (stdout);
+	  return 2;
 	}
-      if (serve_one (p) != 0)
+      if (serve_one () != 0)
 	return 2;
     }
 }
